@@ -119,3 +119,37 @@ def pair_rows(uname, timeout=1800):
         rows.extend(per_op)
     rows.sort(key=lambda r: (r["op"], r["a"], r["b"]))
     return rows
+
+
+SC_PARAMS = "{<<0,1>>, <<1,4>>, <<1,3>>, <<1,2>>, <<2,3>>, <<1,1>>}"
+
+
+def _sc_setup(ns, maxcalls, tag):
+    tlc.prepare()
+    open(os.path.join(tlc.BSPEC, tag + ".tla"), "w").write("---- MODULE %s ----\nEXTENDS SplitClean\nMCParams == %s\n====\n" % (tag, SC_PARAMS))
+    return ("CONSTANTS\n  NS = %d\n  Den = 12\n  Params <- MCParams\n  MaxCalls = %d\nSPECIFICATION SCSpec\nINVARIANT TypeOK\nINVARIANT Tiling\n" % (ns, maxcalls))
+
+
+def splitclean_check(ns=4, maxcalls=2):
+    tag = "MCSC_%d_%d" % (ns, maxcalls)
+    cfg = _sc_setup(ns, maxcalls, tag) + "PROPERTY SplitMonotone\nPROPERTY CleanRestores\nPROPERTY CleanIdempotent\nPROPERTY IgnoredNoop\nCHECK_DEADLOCK FALSE\n"
+    return tlc.run(tag, None, cfg_text=cfg, timeout=900, tag=tag)
+
+
+def splitclean_simulate(ns, *, num, depth, seed):
+    tag = "MCSCS_%d" % ns
+    cfg = _sc_setup(ns, depth, tag) + "CHECK_DEADLOCK FALSE\n"
+    out = os.path.join(tlc.BUILD, "sim", tag)
+    shutil.rmtree(out, ignore_errors=True)
+    os.makedirs(out, exist_ok=True)
+    res = tlc.run(tag, None, cfg_text=cfg, workers=1, timeout=600, tag=tag,
+                  extra=["-simulate", "file=%s/tr,num=%d" % (out, num), "-depth", str(depth + 1), "-seed", str(seed)])
+    behs = [steps for fn, steps in tlaparse.load_behaviours(out)]
+    shutil.rmtree(out, ignore_errors=True)
+    import re
+    m = re.search(r"(\d+) states checked", res.out)
+    if m:
+        res.generated = int(m.group(1))
+        res.distinct = sum(len(b) for b in behs)
+    res.ok = "Finished in" in res.out and "Error" not in res.out
+    return res, behs
